@@ -21,6 +21,13 @@ topological order from start to stop (no filtering), and generate_transpose_plan
 when another of its parents is rewritten.
 (f) rebase_todo reports each plan entry on its own has_revision() test; the test mentions nothing assigned inside the
 loop.
+(g) round-trip table: both functions are evaluated by the abstract interpreter (sa/absint.py, no breezy code is run) on a
+table of plans — empty plan, entries with 0-3 parents, several entries, revno 0, revision ids with the punctuation real
+ids carry (':', '@', '#', '-'; revision ids contain no whitespace) — and the result must equal the input including the
+entry order; a header with another version digit must be refused.
+(h) state table: the RebaseState1 methods are evaluated the same way with the transport modelled as a dictionary
+(put_bytes/get_bytes, NoSuchFile when absent): has_plan/read_plan see what write_plan stored, remove_plan empties it,
+read_active_revid returns what write_active_revid stored (None included), and the two use two distinct files.
 Does not decide: plan contents and ordering beyond (e) (graph values) — not applicable to static analysis.
 """
 
@@ -137,7 +144,129 @@ def run(ctx):
     asks = any(call_attr(c) == "has_revision" for g_ in guards for c in calls_in(g_.test))
     ctx.check("todo-decided-per-entry", wt_, bool(guards) and asks and not (used & carried), "each plan entry is reported as pending on its own has_revision() test", construct=str(sorted(used & carried)), message=f"rebase_todo decides an entry with state carried over from earlier entries ({sorted(used & carried)}) or without asking has_revision: after an interrupted replay of a non-linear plan, revisions that were already replayed are listed as still to do (replay order is not plan order)")
 
+    # ---- (g) round-trip table by abstract evaluation of the two functions ------------------------------------------------
+    from ..absint import Interp, Raised, Unsupported, module_regex_hook
+
+    it = Interp(name_hook=module_regex_hook(repo.module(RB).tree), loop_bound=256)
+    wrt = f"{RB}:marshall_rebase_plan/unmarshall_rebase_plan"
+    ids = [b"a", b"null:", b"joe@example.com-20240101-abcdef", b"git-v1:0123abcd", b"svn-v4:uuid:path:12", b"x#y", b"1"]
+    plans = [{}]
+    plans += [{ids[i]: (ids[(i + 1) % len(ids)], tuple(ids[(i + 2 + k) % len(ids)] for k in range(n)))} for i in range(len(ids)) for n in (0, 1, 2, 3)]
+    plans += [{ids[i]: (ids[-1 - i], tuple(ids[:k])) for i, k in zip(range(4), (0, 2, 1, 3))}, {i_: (i_ + b"'", ()) for i_ in ids}]
+    infos = [(0, b"null:"), (1, ids[2]), (12345, ids[4])]
+    bad, evaluable = [], True
+    try:
+        for info in infos:
+            for plan in plans:
+                it.steps = 0
+                text = it.call(fw, {"last_rev_info": info, "replace_map": plan})
+                try:
+                    back = it.call(fr, {"text": text})
+                except Raised as r:
+                    back = ("raises", r.name)
+                if back != (info, plan) or (isinstance(back, tuple) and len(back) == 2 and isinstance(back[1], dict) and list(back[1]) != list(plan)):
+                    bad.append((info, plan, text, back))
+        it.steps = 0
+        good = it.call(fw, {"last_rev_info": infos[1], "replace_map": plans[1]})
+        hdr, rest = good.split(b"\n", 1)
+        other = hdr[:-1] + (b"9" if hdr[-1:] != b"9" else b"8") + b"\n" + rest
+        try:
+            it.call(fr, {"text": other})
+            refused = False
+        except Raised:
+            refused = True
+    except (Raised, Unsupported, AttributeError, TypeError, ValueError) as ex:
+        evaluable = False
+        ctx.info("plan-roundtrip-table", wrt, f"not evaluable ({ex}); not decided on this run")
+    if evaluable:
+        ctx.fact(len(infos) * len(plans) + 1)
+        ctx.check("plan-roundtrip-table", wrt, not bad, f"unmarshall(marshall(info, plan)) == (info, plan), entry order kept, for {len(infos) * len(plans)} plans (empty plan, 0-3 parents, several entries, revno 0, ids with ':', '@', '#', '-')", construct=repr(bad[0][1:])[:200] if bad else "", message=f"a saved rebase plan does not load back unchanged: plan {bad[0][1] if bad else ''!r} is written as {bad[0][2] if bad else b''!r} and read as {bad[0][3] if bad else ''!r} — an interrupted rebase continues with different parents or loses entries")
+        ctx.check("plan-roundtrip-table", wr, refused, "a plan file whose header names another version is refused", message="unmarshall_rebase_plan accepts a plan file with a different version header")
+
+    # ---- (h) the state object: what write_* stores is what read_*/has_plan see (transport modelled as a dict) --------------
+    from ..absint import Obj
+
+    files = {}
+    cur_info = [infos[1]]
+    _mh = module_regex_hook(repo.module(RB).tree)
+
+    def _names(name):
+        v = _mh(name)
+        return {"NULL_REVISION": b"null:"}.get(name, NotImplemented) if v is NotImplemented else v
+
+    def _hook(interp, call, name, ev_args, env):
+        if name in ("marshall_rebase_plan", "unmarshall_rebase_plan"):
+            f_ = repo.func(RB, name)
+            args, kw = ev_args()
+            return interp.call(f_, {**dict(zip([a.arg for a in f_.args.args], args)), **kw})
+        if name == "self.transport.put_bytes":
+            args, _ = ev_args()
+            files[args[0]] = args[1]
+            return None
+        if name == "self.transport.get_bytes":
+            args, _ = ev_args()
+            if args[0] not in files:
+                raise Raised("NoSuchFile", (args[0],), call)
+            return files[args[0]]
+        if name == "self.wt.update_feature_flags":
+            return None
+        if name == "self.wt.branch.last_revision_info":
+            return cur_info[0]
+        return NotImplemented
+
+    its = Interp(call_hook=_hook, name_hook=_names, loop_bound=256)
+    st = Obj("state", transport=Obj("transport"), wt=Obj("wt", branch=Obj("branch")))
+    wst = f"{RB}:RebaseState1"
+
+    def _m(meth, **kw):
+        its.steps = 0
+        try:
+            return its.call(repo.func(RB, f"RebaseState1.{meth}"), {"self": st, **kw})
+        except Raised as r:
+            return ("raises", r.name)
+
+    sbad, sevaluable = [], True
+    try:
+        if _m("has_plan") is not False:
+            sbad.append("has_plan() is not False before any plan was written")
+        if _m("read_active_revid") is not None:
+            sbad.append("read_active_revid() is not None before any revision was recorded")
+        for info in infos:
+            cur_info[0] = info
+            for plan in plans[:12]:
+                _m("write_plan", replace_map=plan)
+                if _m("has_plan") is not True:
+                    sbad.append(f"has_plan() is not True after write_plan({plan!r})")
+                got = _m("read_plan")
+                if got != (info, plan):
+                    sbad.append(f"read_plan() after write_plan({plan!r}) at {info!r} gives {got!r}")
+        _m("remove_plan")
+        if _m("has_plan") is not False:
+            sbad.append("has_plan() is not False after remove_plan()")
+        if _m("read_plan") != ("raises", "NoSuchFile"):
+            sbad.append("read_plan() after remove_plan() does not raise NoSuchFile")
+        for r_ in ids[2:5]:
+            _m("write_active_revid", revid=r_)
+            if _m("read_active_revid") != r_:
+                sbad.append(f"read_active_revid() after write_active_revid({r_!r}) gives {_m('read_active_revid')!r}")
+        _m("write_active_revid", revid=None)
+        if _m("read_active_revid") is not None:
+            sbad.append("read_active_revid() is not None after write_active_revid(None)")
+        if len({n_ for n_ in files}) != 2:
+            sbad.append(f"the plan and the active revision share a file or use several: {sorted(files)}")
+    except (Unsupported, AttributeError, TypeError, ValueError) as ex:
+        sevaluable = False
+        ctx.info("state-roundtrip-table", wst, f"not evaluable ({ex}); not decided on this run")
+    if sevaluable:
+        ctx.fact(3 * 12 * 2 + 9)
+        ctx.check("state-roundtrip-table", wst, not sbad, "has_plan/read_plan return what write_plan stored (36 plans), remove_plan empties it, read_active_revid returns what write_active_revid stored, None included", construct=sbad[0][:200] if sbad else "", message=f"the saved rebase state does not load back: {sbad[0] if sbad else ''} — `rebase-continue` after an interruption works on a different plan or refuses a valid one")
+
 MUTANTS = [
+    Mutant("stored plan is refused as missing", RB, '        if text == b"":\n            raise NoSuchFile(REBASE_PLAN_FILENAME)\n', '        if text != b"":\n            raise NoSuchFile(REBASE_PLAN_FILENAME)\n', expect="state-roundtrip-table"),
+    Mutant("active revision: null is returned as an id", RB, '            if text == NULL_REVISION:\n                return None\n            return text\n', '            return text\n', expect="state-roundtrip-table"),
+    Mutant("plan reader keeps only blank lines", RB, '        if l == b"":\n            # Skip empty lines\n            continue\n', '        if l != b"":\n            # Skip empty lines\n            continue\n', expect="plan-roundtrip-table"),
+    Mutant("plan reader refuses its own header", RB, '    if lines[0] != b"# Bazaar rebase plan %d" % REBASE_PLAN_VERSION:\n', '    if lines[0] == b"# Bazaar rebase plan %d" % REBASE_PLAN_VERSION:\n', expect="plan-roundtrip-table"),
+    Mutant("plan writer sorts the parents of an entry", RB, '            + b"".join([b" %s" % p for p in newparents])\n', '            + b"".join([b" %s" % p for p in sorted(newparents)])\n', expect="plan-roundtrip-table"),
     Mutant("later plan entries assumed pending after the first miss", RB, "        if not repository.has_revision(parent_ids[0]):\n            yield revid\n", "        if pending or not repository.has_revision(parent_ids[0]):\n            pending = True\n            yield revid\n", expect="todo-decided-per-entry"),
     Mutant("plan keeps only descendants of the start revision", RB, "    todo = order[order.index(start_revid) : order.index(stop_revid) + 1]\n", "    todo = [r for r in order[order.index(start_revid) : order.index(stop_revid) + 1] if r == start_revid or parent_map[r]]\n", expect="plan-covers-range"),
     Mutant("processed children skipped in the transpose plan", RB, "                if c in renames:\n                    continue\n", "                if c in renames or c in processed:\n                    continue\n", expect="transpose-recomputes-per-parent"),
